@@ -332,7 +332,6 @@ HTML_404_TMPL = """
     <p>You're seeing this error because you are in developer/debug mode.
        When served under production settings, Clastic will render a
        standard <code>404 Not Found</code> page.</p>
-    </p>
   </div>
 </body>
 </html>
